@@ -9,6 +9,10 @@ package c10
 //	                     marked a = "wait")
 //	call  a b            it calls method b of the same receiver (a = "") or of
 //	                     the sub-object held in field a (a lock-carrying type)
+//	cb    b              it runs caller code: calls the func-typed field b of the
+//	                     receiver (a handler) or its func-typed parameter b
+//	                     (a comparator), or hands that parameter to a function
+//	                     outside the type (sort.Sort(...{compare: c})), a = "escapes"
 //	acc   r w            it reads the receiver fields r and writes the fields w;
 //	                     for a field holding a reference (slice, pointer, map)
 //	                     "f" is the field itself and "f*" what it refers to
@@ -37,7 +41,7 @@ import (
 // accesses between them) are one step carrying the sets of fields read and
 // written: their order and multiplicity do not matter to a lock discipline.
 type Step struct {
-	K string   `json:"k"` // acq | rel | call | acc
+	K string   `json:"k"` // acq | rel | call | acc | cb
 	A string   `json:"a"` // call: sub-object field ("" = the object itself); acq / rel: "" exclusive, "shared" (RLock / RUnlock), "wait" inside Cond.Wait
 	B string   `json:"b"` // call: method name
 	O string   `json:"o"` // the instance the step is about: "" the receiver, else the PEER instance bound to the parameter of this name
@@ -323,12 +327,17 @@ func Extract(repo string, must ...string) (*Table, error) {
 		if len(fd.d.Recv.List[0].Names) > 0 {
 			recv = fd.d.Recv.List[0].Names[0].Name
 		}
-		w := &walker{tab: tab, ti: ti, recv: recv, meths: meths, sub: map[string]string{}, locals: map[string]lkind{}, peers: map[string]string{}}
+		w := &walker{tab: tab, ti: ti, recv: recv, meths: meths, sub: map[string]string{}, locals: map[string]lkind{}, peers: map[string]string{}, cbs: map[string]bool{}}
 		for _, s := range ti.Sub {
 			w.sub[s[0]] = s[1]
 		}
 		peers := [][]string{}
 		for _, p := range fd.d.Type.Params.List {
+			if _, isFunc := p.Type.(*ast.FuncType); isFunc {
+				for _, pn := range p.Names {
+					w.cbs[pn.Name] = true
+				}
+			}
 			pt := typeName(p.Type)
 			_, isPtr := p.Type.(*ast.StarExpr)
 			_, isId := p.Type.(*ast.Ident)
@@ -412,6 +421,7 @@ type walker struct {
 	sub      map[string]string
 	locals   map[string]lkind
 	peers    map[string]string // peer parameter -> its table type
+	cbs      map[string]bool   // func-typed parameters: caller code
 	steps    []Step
 	deferred []func()
 }
@@ -911,8 +921,9 @@ func (w *walker) call(c *ast.CallExpr, argsToo bool) {
 		if obj, isInst := w.instance(sel.X); isInst {
 			if w.methsOf(obj)[sel.Sel.Name] {
 				w.emit(Step{K: "call", B: sel.Sel.Name, O: obj})
-			} else if ti := w.typeOf(obj); ti != nil && sel.Sel.Name != ti.Lock { // a func-typed field
+			} else if ti := w.typeOf(obj); ti != nil && sel.Sel.Name != ti.Lock { // a func-typed field: caller code runs here
 				w.acc(obj, sel.Sel.Name, false)
+				w.emit(Step{K: "cb", B: sel.Sel.Name, O: obj})
 			}
 			return
 		}
@@ -932,9 +943,34 @@ func (w *walker) call(c *ast.CallExpr, argsToo bool) {
 			}
 		}
 		w.expr(sel.X)
+		if cb := w.mentionsCb(c); cb != "" { // a function outside the type is handed the caller's function: it may run it
+			w.emit(Step{K: "cb", A: "escapes", B: cb})
+		}
+		return
+	}
+	if id, ok := c.Fun.(*ast.Ident); ok && w.cbs[id.Name] { // the caller's function itself
+		w.emit(Step{K: "cb", B: id.Name})
 		return
 	}
 	w.expr(c.Fun)
+	if cb := w.mentionsCb(c); cb != "" {
+		w.emit(Step{K: "cb", A: "escapes", B: cb})
+	}
+}
+
+// mentionsCb: a func-typed parameter of the method occurs among the arguments of the call (directly or inside a
+// composite literal)
+func (w *walker) mentionsCb(c *ast.CallExpr) string {
+	found := ""
+	for _, a := range c.Args {
+		ast.Inspect(a, func(n ast.Node) bool {
+			if id, ok := n.(*ast.Ident); ok && w.cbs[id.Name] && found == "" {
+				found = id.Name
+			}
+			return found == ""
+		})
+	}
+	return found
 }
 
 func (w *walker) expr(e ast.Expr) {
